@@ -172,6 +172,48 @@ def image_hashes(cmds, setarch=False):
     return [json.loads(l).get("hash") for l in p.stdout.decode().splitlines() if '"hash"' in l]
 
 
+def dense_automata(ck, quick):
+    """automata whose states have children for high byte values (0xFF included): the transition table is packed first-fit, so rows end up at the very end of the
+    table; what the scanner can see in memory beyond the used part of a buffer does not exist in the saved image. Prefixes of three signature lists; every
+    signature is probed on the original and on the loaded rules (each must match exactly its own rule on both)"""
+    w = yv.get_worker("asan")
+    lists = []
+    L1 = [(b0, 0x11, 0x41, 0x42) for b0 in range(0xEF, 0xFF)] + [(0xFE, yy, 0x41, 0x42) for yy in list(range(0x00, 0x100, 0x10)) + [0xFF]]
+    L2 = [(0xFF, yy, 0x51, 0x52) for yy in (0xFF, 0xFE, 0x00, 0x80)] + [(b0, 0xFF, 0x61, 0x62) for b0 in range(0xF0, 0x100)] + [(0xFF, 0xFF, 0xFF, yy) for yy in (0xFF, 0x00)]
+    L3 = [(b0, b1, 0x71, 0x72) for b0 in (0xFD, 0xFE, 0xFF) for b1 in (0xFD, 0xFE, 0xFF, 0x00)] + [(0x00, 0xFF, 0x73, 0x74), (0x01, 0xFF, 0x73, 0x74)]
+    lists = [("first-bytes-EF..FE", L1), ("ff-children", L2), ("corner", L3)]
+    n = 0
+    for lname, L in lists:
+        sizes = range(1, len(L) + 1) if not quick else sorted(set(list(range(1, len(L) + 1, 3)) + [len(L) - 1, len(L)]))
+        for k in sizes:
+            sigs = L[:k]
+            text = "\n".join("rule q%d { strings: $s = { %s } condition: $s }" % (i, " ".join("%02X" % b for b in sg)) for i, sg in enumerate(sigs))
+            cmds = ["reset", "compiler 0", "add 0 - " + yv.hx(text), "getrules 0 0", "cdestroy 0", "save 0 0", "load 1 0 chunk=0"]
+            for sg in sigs:
+                d = yv.hx(b"\x00" + bytes(sg) + b"\x00")
+                cmds += ["scan target=r0 via=mem ml=0 data=" + d, "scan target=r1 via=mem ml=0 data=" + d]
+            try:
+                rep = w.batch(cmds)
+            except (yv.WorkerDied, yv.WorkerHang) as e:
+                yv.drop_worker("asan"); w = yv.get_worker("asan")
+                ck.violation("C08:dense-automaton:crash", dict(list=lname, signatures=k, error=str(e), stderr=getattr(e, "err", "")[-1500:])); continue
+            if rep[2]["errors"] or rep[5]["rc"] != 0 or rep[6]["rc"] != 0:
+                ck.violation("C08:dense-automaton:compile-save-or-load-failed", dict(list=lname, signatures=k, replies=rep[2:7])); continue
+            for i, sg in enumerate(sigs):
+                o, l = rep[7 + 2 * i], rep[8 + 2 * i]
+                mo = [m[1] for m in o["t"] if m[0] == "m"]; ml = [m[1] for m in l["t"] if m[0] == "m"]
+                n += 1
+                data = b"\x00" + bytes(sg) + b"\x00"
+                want = ["default:q%d" % j for j, s2 in enumerate(sigs) if bytes(s2) in data]
+                if mo != want or ml != mo:
+                    ck.violation("C08:dense-automaton:%s" % ("loaded-rules-differ-from-original" if mo == want else "original-rules-differ-from-naive-search"),
+                                 dict(list=lname, signatures=k, probe=" ".join("%02X" % b for b in sg), original=mo, loaded=ml))
+                    break
+    ck.sub("dense-automata", probes=n)
+    yv.drop_worker("asan")
+    return n
+
+
 def address_independence(ck, K, bufs):
     n = 0
     for i, c in enumerate(K):
@@ -239,7 +281,7 @@ def main():
     quick = ck.tier == "quick"
     K = constructs(); bufs = buffers()
     n_addr = address_independence(ck, K, bufs)
-    n_hist = histories(ck, K, bufs)
+    n_hist = histories(ck, K, bufs) + dense_automata(ck, quick)
     singles = [(i,) for i in range(len(K))]
     pairs = [(i, j) for i in range(len(K)) for j in range(len(K)) if i != j]
     chunks = [("asan", True, c) for c in yv.chunked(singles, 3)]
